@@ -244,6 +244,8 @@ package lexer
 // ignOK: the ignore flag of every rule of the table says exactly that.
 //@ spec fn lowerInitial(name string) bool = len(name) > 0 && uf("ext_unicode.IsLower_r0", "Bool", uf("ext_utf8.DecodeRuneInString_r0", "Int", name))
 //@ pred ignOK(c compiledRules) = foralls(s, forall(i, 0, len(c[s]), c[s][i].ignore == lowerInitial(c[s][i].Name)))
+// symInj: different names have different token types (EOF keeps -1 unless a rule is called EOF).
+//@ pred symInj(sym map[string]TokenType) = foralls(a, foralls(b, has(sym, a) && has(sym, b) && a != b ==> sym[a] != sym[b]))
 //@ pred ruleOK(r compiledRule) = !typeis(r.Action, include) && (r.RE != nil ==> uf("re_anchored", "Bool", r.RE))
 //@ pred rulesOK(d *StatefulDefinition) = !d.matchLongest && foralls(s, forall(i, 0, len(d.rules[s]), ruleOK(d.rules[s][i]))) && symOK(d.rules, d.symbols) && ignOK(d.rules)
 // ruleMatches: does rule r, entered with capture groups g, match at the start of text s?
@@ -301,6 +303,7 @@ package lexer
 //@ func New [C03 C04 C07]
 //@   allow-panic 1 "documented: two rules with the same name and different patterns"
 //@   ensures result1 == nil ==> result0 != nil && rulesOK(result0)
+//@   ensures @symInj result1 == nil ==> symInj(result0.symbols)
 //@   use anchors(rule.Pattern) at call regexp.Compile#1
 //@   loop 1 invariant compiled != nil && fresh(compiled) && freshAll(compiled) && anchOK(compiled)
 //@   loop 1 invariant ignOK(compiled)
@@ -327,11 +330,13 @@ package lexer
 //@   loop 7 invariant compiled != nil && fresh(compiled) && freshAll(compiled) && anchOK(compiled) && noInc(compiled) && -1 <= rangeindex && rangeindex < len(keys) && symbols != nil && fresh(symbols) && duplicates != nil && fresh(duplicates)
 //@   loop 7 invariant ignOK(compiled)
 //@   loop 7 invariant rn <= EOF - 1 && foralls(s, has(compiled, s) ==> inKeys(keys, s))
+//@   loop 7 invariant symInj(symbols) && foralls(a, has(symbols, a) ==> symbols[a] > rn)
 //@   loop 7 invariant forall(a, 0, rangeindex+1, forall(i, 0, len(compiled[keys[a]]), has(symbols, compiled[keys[a]][i].Name) && symbols[compiled[keys[a]][i].Name] < EOF))
 //@   loop 7 decreases len(keys) - rangeindex
 //@   loop 8 invariant compiled != nil && fresh(compiled) && freshAll(compiled) && anchOK(compiled) && noInc(compiled) && -1 <= rangeindex && symbols != nil && fresh(symbols) && duplicates != nil && fresh(duplicates)
 //@   loop 8 invariant ignOK(compiled)
 //@   loop 8 invariant rn <= EOF - 1 && foralls(s, has(compiled, s) ==> inKeys(keys, s)) && 0 <= rangeindex_up + 1 && rangeindex_up + 1 < len(keys) && key == keys[rangeindex_up+1]
+//@   loop 8 invariant symInj(symbols) && foralls(a, has(symbols, a) ==> symbols[a] > rn)
 //@   loop 8 invariant forall(a, 0, rangeindex_up+1, forall(i, 0, len(compiled[keys[a]]), has(symbols, compiled[keys[a]][i].Name) && symbols[compiled[keys[a]][i].Name] < EOF))
 //@   loop 8 invariant forall(i, 0, rangeindex+1, has(symbols, compiled[key][i].Name) && symbols[compiled[key][i].Name] < EOF)
 //@   loop 8 decreases len(compiled[key]) - rangeindex
